@@ -306,8 +306,104 @@ fn repeated_invocations(srcs: &[String], locus: &str, out: &mut WorkerOut) {
   }
 }
 
+/// Family A ("argument readers"): machines whose working arms read the machine's arguments, with earlier arms that do not apply but
+/// whose patterns reuse the argument names (wholly: another state; partly: a literal in a later field). (source, inputs -> expected)
+pub fn arg_machines(tier: Tier) -> Vec<(String, String, Vec<(u64, u64, u64)>)> {
+  let mut v = vec![];
+  let top = tier.pick(3u64, 5u64);
+  // accumulate k (or x) x times
+  let prefix_pool: [&str; 4] = ["  :Run(k, 1000u64) -> :Done(k)\n", "  :Run(x, 7777u64) -> :Done(x)\n", "  :Run(acc, 1000u64) -> :Done(acc)\n", "  :Run(k, x) -> :Done(5555u64)\n"];
+  let mut prefixes: Vec<Vec<usize>> = vec![vec![]];
+  for a in 0..4 { prefixes.push(vec![a]); for b in 0..4 { if a != b { prefixes.push(vec![a, b]); } } }
+  for pre in &prefixes { for (reads, _) in [("k", 0), ("x", 1)] {
+    // `:Run(k, x) -> :Done(5555)` applies when i == k and acc == x under the equality reading of bound names, and always under the rebinding
+    // reading: the statement does not fix which, so machines holding it are judged only for inputs where both readings agree that it does not
+    // apply ... which is never for the rebinding reading: that arm is used only as a non-first prefix behind an arm that never applies
+    if pre.contains(&3) { continue; }
+    let mut src = String::from("#W(x<u64>, k<u64>) => <u64>\n  ├ :Run(i<u64>, acc<u64>)\n  └ :Done(out<u64>).\n#W(x<u64>, k<u64>) -> :Run(x, 0u64)\n");
+    for p in pre { src.push_str(prefix_pool[*p]); }
+    src.push_str("  :Run(0u64, acc) -> :Done(acc)\n");
+    src.push_str(&format!("  :Run(i, acc) -> :Run(i - 1u64, acc + {})\n  :Done(out) => out.\n", reads));
+    let mut io = vec![];
+    for x in 0..=top { for k in 0..=top { io.push((x, k, if reads == "k" { x * k } else { x * x })); } }
+    v.push((src, format!("accumulate-{}:prefix{:?}", reads, pre), io));
+  } }
+  // walk from pos to goal: the start state's payload is named like an argument (or not), the start arm is listed first or last
+  for init_name in ["goal", "g", "pos"] { for init_first in [true, false] { for arrow in ["->", "~>"] {
+    let init_arm = format!("  :Init({}) {} :Step(pos, 0u64)\n", init_name, arrow);
+    let step_arm = format!("  :Step(pos, n)\n    ├ pos < goal {} :Step(pos + 1u64, n + 1u64)\n    └ * {} :Done(n)\n", arrow, arrow);
+    let src = format!("#W(pos<u64>, goal<u64>) => <u64>\n  ├ :Init({}<u64>)\n  ├ :Step(pos<u64>, n<u64>)\n  └ :Done(n<u64>).\n#W(pos<u64>, goal<u64>) -> :Init(goal)\n{}{}  :Done(n) => n.\n", init_name, if init_first { &init_arm } else { &step_arm }, if init_first { &step_arm } else { &init_arm });
+    let mut io = vec![];
+    // when the start payload is bound to the name `pos`, the later arms read that binding or the argument: not fixed; judged only where both agree (pos == goal)
+    for pos in 0..=top { for goal in 0..=top { if init_name == "pos" && pos != goal { continue; } io.push((pos, goal, goal.saturating_sub(pos))); } }
+    v.push((src, format!("walk:init-payload-{}:{}:{}", init_name, if init_first { "init-arm-first" } else { "init-arm-last" }, arrow), io));
+  } } }
+  v
+}
+
+/// Family K ("declared input kinds"): a one-input machine for each declared kind x an argument of every kind and shape:
+/// (declared kind, pattern that binds the input, output expression, arguments [(text, accepted?)])
+pub fn kind_cases() -> Vec<(String, String, bool)> {
+  let mut v = vec![];
+  let decls: [(&str, &str, &str); 7] = [("u64", "a", "a"), ("f64", "a", "a"), ("u8", "a", "a"), ("[u64]", "[a | rest]", "a"), ("[u64]:1,3", "[a | rest]", "a"), ("[u64]:1,2", "[a | rest]", "a"), ("[f64]:1,3", "[a | rest]", "a")];
+  // (argument text, element kind, rows, cols)  rows = 0: scalar
+  let args: [(&str, &str, usize, usize); 14] = [("3u64", "u64", 0, 0), ("3.5", "f64", 0, 0), ("3u8", "u8", 0, 0), ("3u16", "u16", 0, 0), ("[1u64 2u64 3u64]", "u64", 1, 3), ("[1u64 2u64]", "u64", 1, 2), ("[1u64 2u64 3u64 4u64]", "u64", 1, 4),
+    ("[1u64; 2u64; 3u64]", "u64", 3, 1), ("[1u64 2u64; 3u64 4u64]", "u64", 2, 2), ("[1.5 2.5 3.5]", "f64", 1, 3), ("[1.5 2.5]", "f64", 1, 2), ("[1u8 2u8 3u8]", "u8", 1, 3), ("\"s\"", "string", 0, 0), ("true", "bool", 0, 0)];
+  for (decl, pat, outexpr) in decls {
+    let (dk, dims): (&str, Option<(usize, usize)>) = if let Some(rest) = decl.strip_prefix('[') { let (k, tail) = rest.split_once(']').unwrap(); (k, tail.strip_prefix(':').map(|d| { let (r, c) = d.split_once(',').unwrap(); (r.parse().unwrap(), c.parse().unwrap()) })) } else { (decl, None) };
+    let is_matrix_decl = decl.starts_with('[');
+    let out_kind = dk;
+    for (atext, ak, r, c) in args {
+      let accepted = ak == dk && if is_matrix_decl { r > 0 && dims.map(|d| d == (r, c)).unwrap_or(true) } else { r == 0 };
+      let src = format!("#K(v<{}>) => <{}>\n  ├ :Start(v<{}>)\n  └ :Done(out<{}>).\n#K(v<{}>) -> :Start(v)\n  :Start({}) -> :Done({})\n  :Done(out) => out.\nr := #K({})", decl, out_kind, decl, out_kind, decl, pat, outexpr, atext);
+      v.push((src, format!("declared-{}:argument-{}{}", decl, ak, if r == 0 { String::new() } else { format!(":{}x{}", r, c) }), accepted));
+    }
+  }
+  v
+}
+
 impl UnitRunner for C17 {
   fn unit(&mut self, _payload: &str, unit: u64, out: &mut WorkerOut) {
+    let base = self.ms.len() + self.vms.len() + self.tms.len();
+    if unit as usize >= base {
+      let ams = arg_machines(self.tier);
+      let k = unit as usize - base;
+      if k < ams.len() {
+        let (def, shape, io) = &ams[k];
+        let mut srcs = vec![];
+        for (x, y, want) in io {
+          out.evaluations += 1; out.nontrivial += 1;
+          let src = format!("{}\nr := #W({}u64, {}u64)", def, x, y);
+          srcs.push(src.clone());
+          let (r, _) = run(&src, 200);
+          let case = src.replace('\n', " ⏎ ");
+          match &r {
+            Ok(Canon::Num(kd, t)) if kd == "u64" && t.parse::<u64>().ok() == Some(*want) => { out.set("terminating_shapes", shape); }
+            Ok(o) => out.fail(format!("C17|wrong-output|argument-readers:{}", shape), case, format!("the declaration determines {}<u64>, got {}", want, o.short())),
+            Err(e) if e == "ParseError" => { out.count("machine_unparsable"); out.set("unparsable", shape); }
+            Err(e) => out.fail(format!("C17|good-machine-rejected|argument-readers:{}", shape), case, format!("the declaration determines {}, got Err({})", want, e)),
+          }
+        }
+        srcs.truncate(8);
+        repeated_invocations(&srcs, shape, out);
+      } else if k == ams.len() {
+        for (src, shape, accepted) in kind_cases() {
+          out.evaluations += 1;
+          let (r, _) = run(&src, 60);
+          let case = src.replace('\n', " ⏎ ");
+          match (&r, accepted) {
+            (Err(e), _) if e == "ParseError" => { out.count("machine_unparsable"); out.set("unparsable", &shape); }
+            (Err(e), _) if e.starts_with("PANIC") => out.fail(format!("C17|panic|input-kinds:{}", shape), case, e.clone()),
+            (Ok(v), false) => { out.nontrivial += 1; out.fail(format!("C17|bad-call-accepted|input-kinds:{}", shape), case, format!("the argument is not of the declared kind / shape, the machine returned {}", v.short())); }
+            (Err(_), false) => { out.nontrivial += 1; out.count("wrong_kind_argument_rejected"); }
+            (Ok(_), true) => { out.nontrivial += 1; out.set("input_kinds_accepted", &shape); }
+            // a well-kinded call that is rejected: judged by the driver only where the declaration is usable at all
+            (Err(e), true) => { out.fail(format!("C17|good-machine-rejected|input-kinds:{}", shape), case, format!("the argument has the declared kind and shape, got Err({})", e)); }
+          }
+        }
+      }
+      return;
+    }
     if unit as usize >= self.ms.len() + self.vms.len() {
       let m = &self.tms[unit as usize - self.ms.len() - self.vms.len()];
       let top = self.tier.pick(3u64, 4u64);
@@ -413,7 +509,7 @@ impl Check for C17 {
   fn level(&self) -> &'static str { "model_checking" }
   fn unit_budget(&self, _t: Tier) -> Duration { Duration::from_secs(60) }
   fn drive(&mut self, tier: Tier, cfg: &PoolCfg, rep: &mut Report) {
-    let n = (self.ms.len() + self.vms.len() + self.tms.len()) as u64;
+    let n = (self.ms.len() + self.vms.len() + self.tms.len() + arg_machines(tier).len() + 1) as u64;
     let ms = self.ms.clone();
     let vms = self.vms.clone();
     let tms = self.tms.clone();
